@@ -22,20 +22,20 @@ variable [Add β] [Sub β] [Mul β] [Div β] [Neg β] [LT β] [DecidableLT β]
 inductive FitStep (P : Params α β) (D : Data α β) (ord : List Nat → List Nat)
     (sorted : List (List (Nat × α))) (fuel : Nat) (mask : List Bool) (depth : Nat) : Tree α → Prop
   | leaf (pred : Nat)
-      (hm : modalOf (classWeight D (rowsOf mask)) (ord (presentClasses D (rowsOf mask))) = some pred) :
+      (hm : modalOf (classWeight D (rowsOf mask)) D.rank (ord (presentClasses D (rowsOf mask))) = some pred) :
       FitStep P D ord sorted fuel mask depth (.leaf pred depth)
   | node (pred : Nat) (b : Cand α β) (l r : Tree α)
-      (hm : modalOf (classWeight D (rowsOf mask)) (ord (presentClasses D (rowsOf mask))) = some pred)
+      (hm : modalOf (classWeight D (rowsOf mask)) D.rank (ord (presentClasses D (rowsOf mask))) = some pred)
       (hguard : stopGuard P (rowsOf mask).length depth = false)
       (hok : (candidates P D sorted mask (freqOf D (rowsOf mask))).any (fun c => !c.ok) = false)
       (hb : pickBest (candidates P D sorted mask (freqOf D (rowsOf mask))) = some b)
-      (hdec : ¬ decOf P (freqOf D (rowsOf mask)) (some b) < P.minDec)
+      (hdec : ¬ decOf P D (freqOf D (rowsOf mask)) (some b) < P.minDec)
       (hl : fitNode P D ord sorted fuel (leftMask D mask b.feat b.split) (depth + 1) = some l)
       (hr : fitNode P D ord sorted fuel (rightMask D mask b.feat b.split) (depth + 1) = some r)
       (hle : (rowsOf (leftMask D mask b.feat b.split)).isEmpty = false)
       (hre : (rowsOf (rightMask D mask b.feat b.split)).isEmpty = false) :
       FitStep P D ord sorted fuel mask depth
-        (.node b.feat b.split (decOf P (freqOf D (rowsOf mask)) (some b)) pred depth l r)
+        (.node b.feat b.split (decOf P D (freqOf D (rowsOf mask)) (some b)) pred depth l r)
   | half (pred : Nat) (b : Cand α β) (il : Bool) (c : Tree α)
       (hguard : stopGuard P (rowsOf mask).length depth = false)
       (hc : fitNode P D ord sorted fuel
@@ -43,7 +43,7 @@ inductive FitStep (P : Params α β) (D : Data α β) (ord : List Nat → List N
       (hempty : (rowsOf (if il then rightMask D mask b.feat b.split else leftMask D mask b.feat b.split)).isEmpty = true)
       (hb : pickBest (candidates P D sorted mask (freqOf D (rowsOf mask))) = some b) :
       FitStep P D ord sorted fuel mask depth
-        (.half b.feat b.split (decOf P (freqOf D (rowsOf mask)) (some b)) pred depth il c)
+        (.half b.feat b.split (decOf P D (freqOf D (rowsOf mask)) (some b)) pred depth il c)
 
 theorem fitNode_inv (P : Params α β) (D : Data α β) (ord : List Nat → List Nat)
     (sorted : List (List (Nat × α))) (fuel : Nat) (mask : List Bool) (depth : Nat) (t : Tree α)
@@ -138,10 +138,10 @@ theorem fitNode_forallSplits (P : Params α β) (D : Data α β) (ord : List Nat
     (sorted : List (List (Nat × α))) (Q : List Bool → Nat → α → α → Prop)
     (hQ : ∀ mask depth b, stopGuard P (rowsOf mask).length depth = false →
       pickBest (candidates P D sorted mask (freqOf D (rowsOf mask))) = some b →
-      ¬ decOf P (freqOf D (rowsOf mask)) (some b) < P.minDec →
+      ¬ decOf P D (freqOf D (rowsOf mask)) (some b) < P.minDec →
       (rowsOf (leftMask D mask b.feat b.split)).isEmpty = false →
       (rowsOf (rightMask D mask b.feat b.split)).isEmpty = false →
-      Q mask b.feat b.split (decOf P (freqOf D (rowsOf mask)) (some b))) :
+      Q mask b.feat b.split (decOf P D (freqOf D (rowsOf mask)) (some b))) :
     ∀ fuel mask depth t, fitNode P D ord sorted fuel mask depth = some t → ForallSplits D Q mask t := by
   intro fuel
   induction fuel with
@@ -157,7 +157,7 @@ theorem fitNode_forallSplits (P : Params α β) (D : Data α β) (ord : List Nat
 theorem fitNode_forallLeaves (P : Params α β) (D : Data α β) (ord : List Nat → List Nat)
     (sorted : List (List (Nat × α))) (Q : List Bool → Nat → Prop)
     (hQ : ∀ mask pred,
-      modalOf (classWeight D (rowsOf mask)) (ord (presentClasses D (rowsOf mask))) = some pred → Q mask pred) :
+      modalOf (classWeight D (rowsOf mask)) D.rank (ord (presentClasses D (rowsOf mask))) = some pred → Q mask pred) :
     ∀ fuel mask depth t, fitNode P D ord sorted fuel mask depth = some t →
       (∀ f s dec p d il c, t ≠ .half f s dec p d il c) → NoHalf t → ForallLeaves D Q mask t := by
   intro fuel
@@ -261,69 +261,159 @@ end generic
 
 /-! ### modal class -/
 
-theorem modalOf_aux {β : Type} [LinearOrder β] (freq : Nat → β) :
-    ∀ (order : List Nat) (acc : Option Nat) (c : Nat),
-      order.foldl (fun acc c => match acc with
-        | none => some c
-        | some b => if freq c < freq b then some b else some c) acc = some c →
-      (match acc with
-       | none => c ∈ order ∧ ∀ c' ∈ order, freq c' ≤ freq c
-       | some b => (c = b ∨ c ∈ order) ∧ freq b ≤ freq c ∧ ∀ c' ∈ order, freq c' ≤ freq c) := by
+section modal
+variable {β : Type} [LinearOrder β]
+
+/-- one step of the fold of `find_modal_class` -/
+def modalStep (freq : Nat → β) (rank : Nat → Nat) (acc : Option Nat) (c : Nat) : Option Nat :=
+  match acc with
+  | none => some c
+  | some b =>
+    if freq c < freq b ∨ ((¬ freq b < freq c ∧ ¬ freq c < freq b) ∧ rank b < rank c) then some b
+    else some c
+
+theorem modalOf_eq_foldl (freq : Nat → β) (rank : Nat → Nat) (order : List Nat) :
+    modalOf freq rank order = order.foldl (modalStep freq rank) none := rfl
+
+/-- `Better c c'`: `c` beats `c'` in the order `find_modal_class` maximises — heavier, or equally
+heavy and not later in the label order -/
+def Better (freq : Nat → β) (rank : Nat → Nat) (c c' : Nat) : Prop :=
+  freq c' ≤ freq c ∧ (freq c' = freq c → rank c ≤ rank c')
+
+theorem Better.trans {freq : Nat → β} {rank : Nat → Nat} {a b c : Nat}
+    (h1 : Better freq rank a b) (h2 : Better freq rank b c) : Better freq rank a c := by
+  refine ⟨le_trans h2.1 h1.1, fun h => ?_⟩
+  have hcb : freq c = freq b := le_antisymm h2.1 (h ▸ h1.1)
+  have hba : freq b = freq a := hcb ▸ h
+  exact le_trans (h1.2 hba) (h2.2 hcb)
+
+theorem modalStep_some (freq : Nat → β) (rank : Nat → Nat) (b x : Nat) :
+    (modalStep freq rank (some b) x = some b ∧ Better freq rank b x) ∨
+    (modalStep freq rank (some b) x = some x ∧ Better freq rank x b) := by
+  unfold modalStep
+  simp only
+  split
+  · rename_i h
+    left
+    refine ⟨rfl, ?_⟩
+    rcases h with h | ⟨⟨h1, h2⟩, h3⟩
+    · exact ⟨le_of_lt h, fun he => absurd he (ne_of_lt h)⟩
+    · exact ⟨not_lt.mp h1, fun _ => le_of_lt h3⟩
+  · rename_i h
+    right
+    refine ⟨rfl, ?_⟩
+    rw [not_or] at h
+    obtain ⟨h1, h2⟩ := h
+    refine ⟨not_lt.mp h1, fun he => ?_⟩
+    by_contra hr
+    exact h2 ⟨⟨by rw [he]; exact lt_irrefl _, by rw [he]; exact lt_irrefl _⟩, not_le.mp hr⟩
+
+theorem modalOf_aux (freq : Nat → β) (rank : Nat → Nat) :
+    ∀ (order : List Nat) (b c : Nat),
+      order.foldl (modalStep freq rank) (some b) = some c →
+      (c = b ∨ c ∈ order) ∧ Better freq rank c b ∧ ∀ c' ∈ order, Better freq rank c c' := by
   intro order
   induction order with
   | nil =>
-    intro acc c h
-    cases acc with
-    | none => simp at h
-    | some b => simp at h; subst h; simp
+    intro b c h
+    simp only [List.foldl_nil, Option.some.injEq] at h
+    subst h
+    exact ⟨Or.inl rfl, ⟨le_refl _, fun _ => le_refl _⟩, by simp⟩
   | cons x xs ih =>
-    intro acc c h
+    intro b c h
     simp only [List.foldl_cons] at h
-    cases acc with
-    | none =>
-      have := ih (some x) c h
-      simp only at this
-      obtain ⟨h1, h2, h3⟩ := this
-      refine ⟨?_, ?_⟩
+    rcases modalStep_some freq rank b x with ⟨hs, hb⟩ | ⟨hs, hb⟩
+    · rw [hs] at h
+      obtain ⟨h1, h2, h3⟩ := ih b c h
+      refine ⟨?_, h2, ?_⟩
       · rcases h1 with h1 | h1
-        · simp [h1]
-        · simp [h1]
+        · exact Or.inl h1
+        · exact Or.inr (List.mem_cons_of_mem _ h1)
+      · intro c' hc'
+        rcases List.mem_cons.mp hc' with hc' | hc'
+        · subst hc'; exact h2.trans hb
+        · exact h3 c' hc'
+    · rw [hs] at h
+      obtain ⟨h1, h2, h3⟩ := ih x c h
+      refine ⟨?_, h2.trans hb, ?_⟩
+      · rcases h1 with h1 | h1
+        · exact Or.inr (by simp [h1])
+        · exact Or.inr (List.mem_cons_of_mem _ h1)
       · intro c' hc'
         rcases List.mem_cons.mp hc' with hc' | hc'
         · subst hc'; exact h2
         · exact h3 c' hc'
-    | some b =>
-      simp only at h
-      by_cases hlt : freq x < freq b
-      · rw [if_pos hlt] at h
-        have := ih (some b) c h
-        simp only at this
-        obtain ⟨h1, h2, h3⟩ := this
-        refine ⟨?_, h2, ?_⟩
-        · rcases h1 with h1 | h1
-          · exact Or.inl h1
-          · exact Or.inr (List.mem_cons_of_mem _ h1)
-        · intro c' hc'
-          rcases List.mem_cons.mp hc' with hc' | hc'
-          · subst hc'; exact le_trans (le_of_lt hlt) h2
-          · exact h3 c' hc'
-      · rw [if_neg hlt] at h
-        have := ih (some x) c h
-        simp only at this
-        obtain ⟨h1, h2, h3⟩ := this
-        refine ⟨?_, le_trans (not_lt.mp hlt) h2, ?_⟩
-        · rcases h1 with h1 | h1
-          · exact Or.inr (by simp [h1])
-          · exact Or.inr (List.mem_cons_of_mem _ h1)
-        · intro c' hc'
-          rcases List.mem_cons.mp hc' with hc' | hc'
-          · subst hc'; exact h2
-          · exact h3 c' hc'
 
-/-- `find_modal_class` returns a key of the map whose weight is maximal among the keys,
-whatever the iteration order -/
-theorem modalOf_spec {β : Type} [LinearOrder β] (freq : Nat → β) (order : List Nat) (c : Nat)
-    (h : modalOf freq order = some c) : c ∈ order ∧ ∀ c' ∈ order, freq c' ≤ freq c := by
-  have := modalOf_aux freq order none c h
-  simpa using this
+/-- `find_modal_class` returns a key of the map whose weight is maximal among the keys and which,
+among the keys of maximal weight, comes first in the order of the label type — whatever the
+iteration order of the map -/
+theorem modalOf_spec' (freq : Nat → β) (rank : Nat → Nat) (order : List Nat) (c : Nat)
+    (h : modalOf freq rank order = some c) : c ∈ order ∧ ∀ c' ∈ order, Better freq rank c c' := by
+  rw [modalOf_eq_foldl] at h
+  cases order with
+  | nil => simp at h
+  | cons x xs =>
+    simp only [List.foldl_cons] at h
+    have hx : modalStep freq rank none x = some x := rfl
+    rw [hx] at h
+    obtain ⟨h1, h2, h3⟩ := modalOf_aux freq rank xs x c h
+    refine ⟨?_, ?_⟩
+    · rcases h1 with h1 | h1
+      · simp [h1]
+      · exact List.mem_cons_of_mem _ h1
+    · intro c' hc'
+      rcases List.mem_cons.mp hc' with hc' | hc'
+      · subst hc'; exact h2
+      · exact h3 c' hc'
+
+theorem modalOf_spec (freq : Nat → β) (rank : Nat → Nat) (order : List Nat) (c : Nat)
+    (h : modalOf freq rank order = some c) : c ∈ order ∧ ∀ c' ∈ order, freq c' ≤ freq c :=
+  ⟨(modalOf_spec' freq rank order c h).1, fun c' hc' => ((modalOf_spec' freq rank order c h).2 c' hc').1⟩
+
+theorem modalOf_isSome (freq : Nat → β) (rank : Nat → Nat) (order : List Nat) (hne : order ≠ []) :
+    ∃ c, modalOf freq rank order = some c := by
+  rw [modalOf_eq_foldl]
+  cases order with
+  | nil => exact absurd rfl hne
+  | cons x xs =>
+    simp only [List.foldl_cons]
+    have hx : modalStep freq rank none x = some x := rfl
+    rw [hx]
+    clear hne hx
+    induction xs generalizing x with
+    | nil => exact ⟨x, rfl⟩
+    | cons y ys ih =>
+      simp only [List.foldl_cons]
+      rcases modalStep_some freq rank x y with ⟨hs, _⟩ | ⟨hs, _⟩
+      · rw [hs]; exact ih x
+      · rw [hs]; exact ih y
+
+/-- **the modal class does not depend on the iteration order of the hash map**: two orders with
+the same members give the same result when the label order separates the members -/
+theorem modalOf_order_irrelevant (freq : Nat → β) (rank : Nat → Nat) (o1 o2 : List Nat)
+    (hmem : ∀ c, c ∈ o1 ↔ c ∈ o2)
+    (hinj : ∀ a ∈ o1, ∀ b ∈ o1, rank a = rank b → a = b) :
+    modalOf freq rank o1 = modalOf freq rank o2 := by
+  by_cases h1 : o1 = []
+  · have h2 : o2 = [] := by
+      cases o2 with
+      | nil => rfl
+      | cons y ys => have := (hmem y).mpr (by simp); rw [h1] at this; simp at this
+    rw [h1, h2]
+  · have h2 : o2 ≠ [] := by
+      intro h2
+      cases o1 with
+      | nil => exact h1 rfl
+      | cons y ys => have := (hmem y).mp (by simp); rw [h2] at this; simp at this
+    obtain ⟨c1, hc1⟩ := modalOf_isSome freq rank o1 h1
+    obtain ⟨c2, hc2⟩ := modalOf_isSome freq rank o2 h2
+    obtain ⟨m1, b1⟩ := modalOf_spec' freq rank o1 c1 hc1
+    obtain ⟨m2, b2⟩ := modalOf_spec' freq rank o2 c2 hc2
+    have h12 := b1 c2 ((hmem c2).mpr m2)
+    have h21 := b2 c1 ((hmem c1).mp m1)
+    have hf : freq c1 = freq c2 := le_antisymm h21.1 h12.1
+    have hr : rank c1 = rank c2 := Nat.le_antisymm (h12.2 hf.symm) (h21.2 hf)
+    rw [hc1, hc2, hinj c1 m1 c2 ((hmem c2).mpr m2) hr]
+
+end modal
 end LinfaSpec.Tree
